@@ -10,6 +10,10 @@ Whalley-Wilmott is run for every derivative a Black-Scholes module exists for (E
 four and FIVE input features), through forward() on the concatenated input (several rows, previous hedge placed relative to the band)
 and through a Hedger on simulated paths; oracle = delta / gamma of an independent Black-Scholes module called with named arguments;
 correspondence of the half-width with op "ww_width" and of the band logic with the exact op "ww" (European also op "ww_full").
+The MODULE itself -- which column of the row is the previous hedge, which option kind's delta and gamma, the half-width and the clamp --
+is the model definition `wwForwardRow` (Model/WWModule.lean; theorems in Lemmas/C20Module.lean), evaluated by op "ww_module" on every row
+of every WhalleyWilmott.forward section (all four kinds, all input shapes flattened to rows), on the per-step rows (features of the step +
+previous hedge) of the Hedger section, and on rows of a wrong length (error kinds); compared with the output of the real module.
 The helpers are also evaluated OUTSIDE the usual range of their arguments, wherever the documented formula is defined: bilerp weights
 outside [0, 1] (float / 0-dim / per-element tensor weights, float32 and float64), SVI parameters of any sign, box_muller with u1 <= 0 /
 around epsilon, angles beyond one turn and a caller-chosen epsilon, ww_width with negative / huge gamma, cost rates up to 1 and tensor
@@ -245,6 +249,14 @@ def check(ctx):
     from pfhedge.instruments import BrownianStock, EuropeanOption
     from pfhedge.nn import WhalleyWilmott, BlackScholes, SVIVariance
     wwreqs, wwmeta = [], []
+    wmod_reqs, wmod_meta = [], []           # op "ww_module": one request per (module, block of rows); meta = list of (case, impl, tol) per row
+
+    def wmod_add(kind, call, k, cost, a, rows, metas, what="forward"):
+        """rows of one module sent to the model of the module; metas: per row (case, impl value or ("err", kind), absolute tolerance or None
+        = the tolerance of "ww_full")"""
+        wmod_reqs.append({"op": "ww_module", "what": what, "kind": kind, "call": call, "strike": float_bits(k), "cost": float_bits(cost),
+                          "a": float_bits(a), "rows": enc_flt(rows)})
+        wmod_meta.append(list(metas))
     for _ in range(120 if ctx.tier == "quick" else 1500):
         cost = g.choice([0.0, 0.0, 1e-4, 1e-3, 1e-2, 5e-2])
         a = g.choice([0.25, 1.0, 3.0, 1.0])
@@ -291,6 +303,7 @@ def check(ctx):
             wwmeta.append((case, out))
         wwreqs.append({"op": "ww_full", "cost": float_bits(cost), "a": float_bits(a), "k": float_bits(k), "call": call,
                        "elems": enc_flt(rows)})
+        wmod_add("european", call, k, cost, a, rows, [(c_, o_, None) for c_, o_ in wwmeta[-len(rows):]])
     # svi / box_muller / ww_width / realized vol
     sreq_elems, smeta = [], []
     for _ in range(200 if ctx.tier == "quick" else 3000):
@@ -410,7 +423,7 @@ def check(ctx):
             if stage > 0:
                 stock.cost = cost
             old = costs[stage - 1] if stage > 0 else cost
-            rows = []
+            rows, wmod_rows = [], []
             for _j in range(3):
                 s = g.r.uniform(-0.5, 0.5)
                 t = g.choice([0.01, 0.1, 0.25, 1.0, 2.0, g.r.uniform(0.01, 3)])
@@ -455,8 +468,10 @@ def check(ctx):
                     ctx.fail("Whalley-Wilmott differs from the Black-Scholes delta although the cost of the underlier is zero now", case,
                              key="WhalleyWilmott.forward:zero-cost" + sfx, detail={"impl": out, "delta": delta})
                 wwmeta.append((case, out))
+                wmod_rows.append(([s, t, v, prev], case, out))
             wwreqs.append({"op": "ww_full", "cost": float_bits(cost), "a": float_bits(a), "k": float_bits(k), "call": call,
                            "elems": enc_flt(rows)})
+            wmod_add("european", call, k, cost, a, [r_ for r_, _c, _o in wmod_rows], [(c_, o_, None) for _r, c_, o_ in wmod_rows])
     # ---------------- Whalley-Wilmott for every derivative a Black-Scholes module exists for -- also those with FIVE input features
     # (lookback, American binary: log_moneyness, max_log_moneyness, time_to_maturity, volatility, prev_hedge) and the European binary
     # (negative gamma past the strike) -- through forward() on the concatenated input, several rows at once, with the previous hedge
@@ -527,6 +542,13 @@ def check(ctx):
             continue
         outs = [float(z) for z in o.detach().reshape(-1).tolist()]
         all_rows_ok = True
+        # the module as a whole against its model (op "ww_module"): every row of the input, whatever its shape was.  The autograd-based
+        # quantities (lookback delta / gamma, American binary gamma) are derivatives on both sides: the tolerance of the band oracle below
+        fin = [math.isfinite(delta) and math.isfinite(gam) and math.isfinite(out) for delta, gam, out in zip(deltas, gammas, outs)]
+        wmod_add(kind, call, k, cost, a, [row for row, f_ in zip(rows, fin) if f_],
+                 [(base | {"row": row, "where": where, "input_shape": shape}, out,
+                   None if kind in ("european", "european_binary") else 1e-9 * (1 + abs(out)) + 1e-7 * (abs(wid) if math.isfinite(wid) else 0.0))
+                  for row, where, wid, out, f_ in zip(rows, wheres, widths, outs, fin) if f_])
         for row, where, delta, gam, wid, out in zip(rows, wheres, deltas, gammas, widths, outs):
             case = base | {"row": row, "where": where, "input_shape": shape}
             ctx.case(case, nontrivial=cost > 0, tag="ww:" + kind)
@@ -591,6 +613,7 @@ def check(ctx):
             continue
         hedge = hedge.detach()
         found = False
+        step_rows, step_meta = [], []
         for ts in range(hedge.size(-1) - 1):
             feats = {"log_moneyness": d.log_moneyness(ts), "time_to_maturity": d.time_to_maturity(ts), "volatility": stock.volatility[:, [ts]]}
             if "max_log_moneyness" in names:
@@ -603,6 +626,17 @@ def check(ctx):
             okay = (delta.isfinite() & gam.isfinite())
             bad = okay & ~((hedge[:, 0, [ts]] - exp).abs() <= 1e-9 * (1 + exp.abs()) + 1e-7 * wdoc)
             ctx.stats["ww:hedger:steps"] += int(okay.sum())
+            # the module against its model at every step of every path: the row the hedger hands to the module is (features of the step,
+            # hedge of the step before -- zero before the first step); its output is the hedge of the step
+            for i in range(n_paths):
+                row = [float(kw[nm][i, 0]) for nm in names[:-1]] + [float(prev[i, 0])]
+                out_ = float(hedge[i, 0, ts])
+                if not (bool(okay[i, 0]) and math.isfinite(out_)):
+                    continue
+                step_rows.append(row)
+                step_meta.append((case | {"path": i, "step": ts, "row": row}, out_,
+                                  None if kind in ("european", "european_binary") else
+                                  1e-9 * (1 + abs(out_)) + 1e-7 * (abs(float(wdoc[i, 0])) if math.isfinite(float(wdoc[i, 0])) else 0.0)))
             ctx.stats["ww:hedger:previous hedge kept"] += int((okay & (exp == prev)).sum())
             if bool(bad.any()) and not found:
                 i = int(bad.nonzero()[0][0])
@@ -612,6 +646,37 @@ def check(ctx):
                          detail={"path": i, "step": ts, "impl": float(hedge[i, 0, ts]), "expected": float(exp[i, 0]), "prev_hedge": float(prev[i, 0]),
                                  "delta": float(delta[i, 0]), "gamma": float(gam[i, 0]), "width_doc": float(wdoc[i, 0]),
                                  "state": {nm: float(kw[nm][i, 0]) for nm in names[:-1]}})
+        wmod_add(kind, call, k, cost, a, step_rows, step_meta)
+    # ---------------- rows of a wrong length and inputs(): the model of the module says what the real module does with them (too many columns:
+    # TypeError of the positional call; an empty row: IndexError; too few: the missing parameters are looked up in the derivative, which has not
+    # been simulated here: AttributeError) -- error kinds and, for the full length, values (time to maturity / volatility of any sign)
+    inputs_reqs, inputs_meta = [], []
+    for kind in WW_KINDS:
+        d = ww_derivative(kind, BrownianStock(dtype=torch.float64), 1.0, True)
+        inputs_reqs.append({"op": "ww_module", "what": "inputs", "kind": kind})
+        inputs_meta.append((kind, list(WhalleyWilmott(d).inputs())))
+    for _ in range(12 if ctx.tier == "quick" else 120):
+        kind = g.choice(list(WW_KINDS))
+        cost, a, k = g.choice([0.0, 1e-3, 1e-2]), g.choice([0.25, 1.0, 3.0]), g.choice([0.5, 1.0, 2.0])
+        call = g.chance(0.7) if kind in ("european", "european_binary") else True
+        m = WhalleyWilmott(ww_derivative(kind, BrownianStock(cost=cost, dtype=torch.float64), k, call), a=a)
+        n_in = len(m.inputs())
+        rows_, metas_ = [], []
+        for L in list(range(0, n_in + 3)) + [n_in, n_in]:
+            row = [g.choice([g.r.uniform(-0.5, 0.5), g.r.uniform(0.05, 1.0), g.r.uniform(0.05, 1.0), -g.r.uniform(0.05, 1.0)]) for _i in range(L)]
+            st, o, mut = call_impl(m, torch.tensor([row], dtype=torch.float64))
+            case = {"kind": kind, "inputs": m.inputs(), "cost": cost, "a": a, "k": k, "call": call, "row": row, "row_length": L}
+            ctx.case(case, nontrivial=L != n_in, tag="ww:row-length")
+            ctx.stats[f"ww:row-length:{'full' if L == n_in else ('short' if L < n_in else 'long')}:{st if st != 'ok' else 'ok'}"] += 1
+            ctx.traces += 1
+            if mut:
+                ctx.mutated("WhalleyWilmott", mut, case)
+            if st == "ok" and not math.isfinite(float(o.detach().reshape(-1)[0])):
+                continue
+            rows_.append(row)
+            metas_.append((case, float(o.detach().reshape(-1)[0]) if st == "ok" else ("err", o),
+                           None if kind in ("european", "european_binary") else 1e-9 * (1 + abs(float(o.detach().reshape(-1)[0]))) + 1e-7 if st == "ok" else None))
+        wmod_add(kind, call, k, cost, a, rows_, metas_)
     # ---------------- tensor-valued dt: 0-dim, one interval per path (shape (N,) for input (N,T), (N,M) for input (N,M,T)), incl. the
     # coincidence "last batch dimension == T-1"; oracle: sigma^2 = 1/(T-1) sum_i (1/dt) log(S_{i+1}/S_i)^2 path by path
     for _ in range(120 if ctx.tier == "quick" else 1500):
@@ -657,6 +722,8 @@ def check(ctx):
     try:
         bouts = ctx.driver([{"op": "bilerp", "elems": enc_rat(breq)}])
         wwouts = ctx.driver(wwreqs)
+        wmod_live = [(q, mt) for q, mt in zip(wmod_reqs, wmod_meta) if q["rows"]]
+        wmod_outs = ctx.driver([q for q, _mt in wmod_live] + inputs_reqs)
         wwrat = ctx.driver([{"op": "ww", "elems": enc_rat(ww_rat_elems)}]) if ww_rat_elems else []
         souts = ctx.driver([{"op": "svi", "elems": enc_flt(sreq_elems)}, {"op": "box_muller", "eps": float_bits(1e-10), "elems": enc_flt(bm_elems)},
                             {"op": "ww_width", "elems": enc_flt(wreq_elems)}])
@@ -664,7 +731,21 @@ def check(ctx):
         bm_eps_outs = ctx.driver([{"op": "box_muller", "eps": float_bits(eps), "elems": enc_flt(el)} for eps, (el, _o) in sorted(bm_eps.items())])
     except DriverBroken as e:
         ctx.ties_broken.append({"kind": "driver", "detail": str(e)[:1500]})
-        bouts, wwouts, souts, rvouts, bm_eps_outs, wwrat = [], [], [], [], [], []
+        bouts, wwouts, souts, rvouts, bm_eps_outs, wwrat, wmod_outs, wmod_live = [], [], [], [], [], [], [], []
+    for (q, metas_), mo in zip(wmod_live, wmod_outs):
+        for (case, impl, tol), mm in zip(metas_, mo):
+            ctx.stats["ww_module:rows compared"] += 1
+            if isinstance(impl, tuple):                        # the real module raised: the model must raise the same kind
+                if mm.get("err") != impl[1]:
+                    ctx.disagree("ww_module", case, {"err": impl[1]}, mm if "ok" not in mm else float_of_bits(mm["ok"]))
+                continue
+            mv = float_of_bits(mm["ok"]) if "ok" in mm else None
+            if mv is None or not (close(impl, mv, rel=1e-9, ab=1e-10) if tol is None else
+                                  (close(impl, mv, rel=1e-9, ab=1e-10) or abs(impl - mv) <= tol)):
+                ctx.disagree("ww_module", case, impl, mm if mv is None else mv)
+    for (kind, names_), mo in zip(inputs_meta, wmod_outs[len(wmod_live):]):
+        if list(mo) != names_:
+            ctx.disagree("ww_module", {"kind": kind, "what": "inputs()"}, names_, mo)
     if wwrat:
         for (case, out, tol), mv in zip(ww_rat_meta, dec_rat(wwrat[0]["ok"])):
             if not abs(F(out) - mv) <= tol:
@@ -702,6 +783,7 @@ def check(ctx):
              "WW: prev placed inside/outside/on the band, costs {0..5e-2}, a in {1/4,1,3}, one module re-used after underlier.cost changed (to 0, from 0, "
              "between positive costs); helpers on random reals; realized variance/volatility with float and tensor dt (0-dim, one interval per path: "
              "(N,) / (N,M), incl. last batch dimension == T-1); WW for European / European binary / lookback / American binary derivatives (4 and 5 input "
-             "features) through forward() on concatenated rows and through a Hedger on simulated paths; helpers outside the usual range of their arguments "
+             "features) through forward() on concatenated rows and through a Hedger on simulated paths, every row and every (path, step) also through the model of the "
+             "module (op ww_module), which is also run on rows of every length 0 .. len(inputs()) + 2; helpers outside the usual range of their arguments "
              "(bilerp weights in [-3,4], SVI parameters of any sign, box_muller u1 <= 0 / near epsilon / other epsilon / angles beyond a turn, ww_width with "
              "negative gamma and tensor cost / a); distinct = sha1 of canonical case")
